@@ -347,7 +347,7 @@ func (m c06) Run(c *core.Ctx) {
 		}
 	}
 	// generated programs with injected faults
-	n := c.Pick(300, 6000)
+	n := c.Pick(300, 100000)
 	o := gen.Opts{MaxStmts: 24, MaxDepth: 4, ExprDepth: 3, Try: 0.5, Throw: 0.3, Funcs: 0.6, Shadow: 0.2, LogProb: 0.1,
 		Consts: 0.1, Globals: true, DeepRecursion: 30, Faults: 0.04, TailRec: true}
 	for i := 0; i < n; i++ {
